@@ -12,7 +12,6 @@ import hashlib
 import inspect
 import math
 import os
-import random
 from fractions import Fraction
 
 import numpy as np
@@ -39,11 +38,11 @@ ASSUMPTIONS = ["reference rasteriser/fold/decoder in vmon/refmodels/pianoroll.py
                "float results compared with 1e-9 (f8) / 1e-6 relative (f4 columns of the inverse)",
                "piano_range together with pitch_margin, negative onsets without silence removal, velocity 0, "
                "the offset column of index rows in onset mode and off-grid cells are left open by the statement"]
-MIN_HOOKS = {"_make_pianoroll": {"quick": 15000, "thorough": 150000},
-             "compute_pianoroll": {"quick": 15000, "thorough": 150000},
-             "compute_pitch_class_pianoroll": {"quick": 2000, "thorough": 20000},
-             "pianoroll_to_notearray": {"quick": 1500, "thorough": 15000}}
-MIN_NONTRIVIAL = {"quick": 4000, "thorough": 50000}
+MIN_HOOKS = {"_make_pianoroll": {"quick": 15000, "thorough": 250000},
+             "compute_pianoroll": {"quick": 15000, "thorough": 250000},
+             "compute_pitch_class_pianoroll": {"quick": 2000, "thorough": 40000},
+             "pianoroll_to_notearray": {"quick": 1500, "thorough": 25000}}
+MIN_NONTRIVIAL = {"quick": 4000, "thorough": 80000}
 WATCHDOG_S = {"quick": 900, "thorough": 7200}
 
 _hooks = {}
@@ -681,7 +680,7 @@ def plan(tier, seed):
         items += [["fixture", "musicxml/test_note_ties.xml"], ["fixture", "midi/test_basic_midi.mid"],
                   ["fixture", "musicxml/test_chew_vosa_example.xml"]]
         return items
-    items = small + [["gen", i] for i in range(2800)] + [["rolls", i] for i in range(500)]
+    items = small + [["gen", i] for i in range(5000)] + [["rolls", i] for i in range(800)]
     for sub in ("musicxml", "midi", "match", "mei", "kern"):
         d = os.path.join(DATA, sub)
         if os.path.isdir(d):
